@@ -71,3 +71,26 @@ PROPS["C17"] = {
     "trusted_base": ["hand-written model Model/Contour.lean of the scan iterator and tracer (tied by exhaustive correspondence)"],
     "assumptions": ["the bitmap vector has width*height entries (the Rust code indexes without bounds checks otherwise)"],
 }
+
+PROPS["C04"] = {
+    "title": "Curve-line and line-line intersections agree with the exact root set",
+    "gen_modules": ["Consts", "Basis", "Lines", "CurveLine"],
+    "corr_n": (20000, 400000),
+    "search_n": (20000, 400000),
+    "technique": "Lean 4 theorems over definitions translated from the Rust source on every run (line/line uniqueness, curve/line soundness and conditional completeness) + XQ/Float correspondence + search",
+    "level_text": "line_intersects_line / line_intersects_ray / ray_intersects_ray: theorems that the generated definitions return the unique solution of the two line equations exactly when it lies in the "
+                  "stated parameter ranges (non-zero divisor), and - with IEEE division modelled by XQ - return None for a zero divisor (parallel/collinear). curve_intersects_ray is translated whole "
+                  "(loop included): it is proved equal to filterMap of a per-root function over the solver's roots; every hit has t in [0,1], is the curve point at t, and an unsnapped exact root lies on "
+                  "the line at exactly s; curve_intersects_line is the filter 0<=s<=1; every root of the signed-distance cubic in [0,1] is reported given the solver contract; polish_root never increases "
+                  "the residual and fixes exact roots; the solver dispatch is characterised. The distance cubic is proved to be the signed distance of the curve point.",
+    "level_note": "The external solvers (crate roots) are a parameter: completeness is conditional on 'returns every real root'; for a small non-zero leading coefficient the code solves a quadratic and "
+                  "refines - an approximation covered only by the search (sign-change scan, 1e-6 / 0.001 tolerances). line_clip_to_bounds is a hand model checked exhaustively on an integer grid "
+                  "(no Liang-Barsky theorem yet). sqrt is an uninterpreted function in the theorems. " + COMMON_NOTE,
+    "rule": "corr: line pairs (dyadic integer grid and reals; parallel, collinear, shared end, T-junction, point line forced in), clip, line coefficients, and curve/line (the implementation's own "
+            "parameters are fed back as roots and the generated loop must reproduce every hit in Float). search: exhaustive integer grids for the three line functions and line_clip_to_bounds "
+            "(maximal sub-segment by exact enumeration), then random curves incl. near-degenerate cubics (leading coefficient 1e-9.5..1e-6.5), exact quadratics, straight curves, against lines "
+            "through end points / control points / curve points, axis-parallel: every hit on curve and on line (1e-6, 0.001 snapped), filter equality, every clear sign change on a 1/2000 grid reported. "
+            "Non-trivial: an intersection exists; distinct by input.",
+    "trusted_base": ["external cubic/quadratic solver (crate roots) is a parameter with an explicit contract", "hand model Model/Clip.lean of line_clip_to_bounds"],
+    "assumptions": ["solver contract for completeness; exact arithmetic for the on-line statement"],
+}
